@@ -21,7 +21,15 @@ PROP = {
            {'name': 'cpusuppress',
             'pkg': 'pkg/koordlet/qosmanager/plugins/cpusuppress',
             'files': ['C12/c12_cpuset_test.go'],
-            'tests': [{'run': 'TestVerifC12BECPUSetRewrite', 'quick': 600, 'thorough': 3000}]}],
+            'tests': [{'run': 'TestVerifC12BECPUSetRewrite', 'quick': 600, 'thorough': 3000}]},
+           # "when the rewrite completes every file holds its target value" for the BE cpuset tree as rewritten by adjustByCPUSet,
+           # incl. crash-recovery states (root already at the round's target, descendants narrower): asserted by the C10 harness
+           # (cpuset:descendant-not-at-target-after-round), whose two cpuset tests are registered here as a C12 unit as well.
+           {'name': 'cpusuppress-rounds',
+            'pkg': 'pkg/koordlet/qosmanager/plugins/cpusuppress',
+            'files': ['C10/c10_test.go'],
+            'tests': [{'run': 'TestVerifC10AdjustCPUSet', 'quick': 1500, 'thorough': 4000},
+                      {'run': 'TestVerifC10SuppressHistory', 'quick': 600, 'thorough': 3000}]}],
  'manifest': {'technique': 'property-based testing (rapid): generated cgroup trees and old/new assignments; invariant checked on a snapshot after every single updater call (crash-point enumeration within each generated case)',
               'text': ('Generated-input search with per-step invariant: for every generated tree and pair of hierarchy-valid assignments, each prefix of the write sequence of '
                        'LeveledUpdateBatch (and of the BE cpuset rewrite in cpusuppress) is examined as a crash point and must be hierarchy-valid; the final state must equal '
